@@ -381,6 +381,34 @@ def uvl_prefix_is_invalid(text, cut):
     return False
 
 
+def afm_prefix_is_invalid(text, cut):
+    """Is text[:cut] certainly not an AFM document?  Every AFM statement ends with ';': a prefix
+    whose last non-blank character is neither ';' nor the end of a section header, or that ends
+    inside (), [] or {}, is cut inside a statement.  (False means 'no opinion'.)"""
+    if cut <= 0 or cut >= len(text):
+        return False
+    prefix = text[:cut]
+    depth = 0
+    for ch in prefix:
+        if ch in "([{":
+            depth += 1
+        elif ch in ")]}":
+            depth -= 1
+    if depth > 0:
+        return True
+    body = prefix.rstrip()
+    if not body or body.endswith(";"):
+        return False
+    last_line = body.split("\n")[-1].strip()
+    if last_line in ("%Relationships", "%Attributes", "%Constraints"):
+        return False
+    if prefix != body and last_line.startswith("%"):
+        return True      # a truncated section keyword followed by white space
+    # cut in the middle of a statement or of a section keyword; but a prefix that stops exactly
+    # at the end of a word may still tokenise: only claim it when a statement was clearly begun
+    return ":" in last_line or " " in last_line or "." in last_line
+
+
 def _strip_comment(line):
     pos = line.find("//")
     return line if pos < 0 else line[:pos]
